@@ -334,9 +334,12 @@ def check_chain(ctx, fsmod, worlds, members, chain, queries, folders, desc):
     def pre(pf):
         return norm_folder(pf).casefold()
     sets = []
+    prefix_case_differs = False      # open finding: relpath() is case-sensitive on POSIX
     for kind, wi, pf in members:
         w = worlds[wi]
         sets.append((pre(pf), {n.casefold(): i for n, i in zip(w.names, w.ids)}))
+        if any(d != norm_folder(pf) and d.casefold() == pre(pf) for d in folders_of(w.names)):
+            prefix_case_differs = True
     for q in queries:
         fq = q.replace('\\', '/').casefold()
         want = None
@@ -362,7 +365,11 @@ def check_chain(ctx, fsmod, worlds, members, chain, queries, folders, desc):
         w = obs_walk(fsmod, chain, d)
         got = sorted((uncodes(x[0]).casefold(), x[1]) for x in w) if isinstance(w, list) else w
         if got != sorted(want.items()):
-            ctx.witness('chain-walk', f'chain {desc}: walk_folder({d!r}) lists {got}, expected each name once, relative to the member prefix, '
+            if prefix_case_differs:
+                ctx.count('chain:walk:open-finding-prefix-case')
+                if ctx.hist['chain:walk:open-finding-prefix-case'] > 3:
+                    continue      # keep room for other witnesses
+            ctx.witness('chain-walk-prefix-case' if prefix_case_differs else 'chain-walk', f'chain {desc}: walk_folder({d!r}) lists {got}, expected each name once, relative to the member prefix, '
                         f'with the first member\'s content: {sorted(want.items())}', {'chain': desc, 'folder': d})
 
 
